@@ -18,6 +18,8 @@ void sched_point(const char* label);
 void sched_fail(const char* fmt, ...);
 // the next pthread_create of a managed thread fails with EAGAIN (and leaves a dangling value in *thread, as glibc does)
 void sched_fail_next_create(void);
+// the next sem_wait of the calling thread is interrupted once (returns -1 / EINTR before looking at the count)
+void sched_intr_next_sem_wait(void);
 long long sched_now_ms(void);
 // ids of the managed threads that are blocked on a condition variable right now (not yet woken in any way)
 int sched_cond_blocked(int* ids, int max);
